@@ -265,3 +265,93 @@ def c05(pc):
                 checked += 1
     return {"native_sweep": {"histories_checked": checked, "data_len_up_to": maxlen, "ops_per_history": maxops,
                              "alphabet": "00 01 FE FF", "exhaustive": True}}
+
+
+def reader_algebra(pc):
+    """the facts E2 asserts about its abstract reader transformers (pyvc.gen.Vocab.skip / next / setch),
+    evaluated on the real EoReader over bounded-exhaustive states: data over {00, 41, FE, FF} up to
+    length 4, every position reachable by reads, both modes"""
+    pc.native()
+    rd = importlib.import_module("eolib.data.eo_reader")
+    alpha = [0x00, 0x41, 0xFE, 0xFF]
+    maxlen = 4 if pc.tier == "quick" else 6
+    checked = 0
+
+    from contracts import spec as S
+
+    def obs(r):
+        return (r.chunked_reading_mode, r.position, r.remaining, len(r._data) - r.position, len(r._data) - r._chunk_start)
+
+    def states(data):
+        # reachable states: a few prefixes of operations
+        for pre in itertools.product(("m1", "m0", "b1", "b2", "nc"), repeat=2):
+            r = rd.EoReader(data)
+            for op in pre:
+                if op == "m1":
+                    r.chunked_reading_mode = True
+                elif op == "m0":
+                    r.chunked_reading_mode = False
+                elif op == "b1":
+                    r.get_bytes(1)
+                elif op == "b2":
+                    r.get_bytes(2)
+                elif op == "nc" and r.chunked_reading_mode:
+                    r.next_chunk()
+            yield r, pre
+
+    def clone(r):
+        c = object.__new__(type(r))
+        c.__dict__.update(r.__dict__)
+        return c
+    for n in range(maxlen + 1):
+        for data in itertools.product(alpha, repeat=n):
+            data = bytes(data)
+            for r0, pre in states(data):
+                o0 = obs(r0)
+                if not S.RA_STATE(o0[0], *o0[2:]):
+                    _fail(pc, "eolib.data.eo_reader.EoReader.remaining", {"data": list(data), "prefix": pre}, f"RA_STATE violated: {o0}")
+                    return {"reader_algebra_checked": checked}
+                for k in (0, 1, 2, 3, 5):
+                    for how in ("bytes", "fixed", "int"):
+                        if how == "int" and k not in (1, 2, 3):
+                            continue
+                        r = clone(r0)
+                        if how == "bytes":
+                            r.get_bytes(k)
+                        elif how == "fixed":
+                            r.get_fixed_string(k, k % 2 == 1)
+                        else:
+                            (r.get_char, r.get_short, r.get_three)[k - 1]()
+                        checked += 1
+                        if not S.RA_SKIP(k, *(o0 + obs(r))):
+                            _fail(pc, "eolib.data.eo_reader.EoReader.get_bytes", {"data": list(data), "prefix": pre, "k": k, "how": how},
+                                  f"RA_SKIP violated: before {o0} after {obs(r)}")
+                            return {"reader_algebra_checked": checked}
+                r = clone(r0)
+                r.get_string()
+                checked += 1
+                if not S.RA_SKIP(o0[2], *(o0 + obs(r))):
+                    _fail(pc, "eolib.data.eo_reader.EoReader.get_string", {"data": list(data), "prefix": pre},
+                          f"RA_SKIP(remaining) violated: before {o0} after {obs(r)}")
+                    return {"reader_algebra_checked": checked}
+                for b in (True, False):
+                    r = clone(r0)
+                    r.chunked_reading_mode = b
+                    checked += 1
+                    ok = S.RA_SETCH(b, *(o0 + obs(r)))
+                    if o0[0] == b:
+                        ok = ok and obs(r) == o0
+                    if not ok:
+                        _fail(pc, "eolib.data.eo_reader.EoReader.chunked_reading_mode.setter", {"data": list(data), "prefix": pre, "value": b},
+                              f"RA_SETCH violated: before {o0} after {obs(r)}")
+                        return {"reader_algebra_checked": checked}
+                if o0[0]:
+                    r = clone(r0)
+                    r.next_chunk()
+                    checked += 1
+                    if not S.RA_NEXT(*(o0 + obs(r))):
+                        _fail(pc, "eolib.data.eo_reader.EoReader.next_chunk", {"data": list(data), "prefix": pre},
+                              f"RA_NEXT violated: before {o0} after {obs(r)}")
+                        return {"reader_algebra_checked": checked}
+    return {"reader_algebra_checked": checked,
+            "reader_algebra_note": "contracts.spec.RA_STATE / RA_SKIP / RA_SETCH / RA_NEXT (the facts E2 asserts of its abstract reader) hold on the real EoReader for every enumerated state"}
